@@ -8,9 +8,10 @@ compact_timeslot(sind_list)   (C18)
                                                                                      (onto 0..k-1, k = |sind_list|)
     trusted   sorted(): an ascending duplicate-free enumeration of exactly the elements; enumerate()."""
 import z3
-from pyvc.sym import fresh, fresh_fun, Int, Bool, Node, inb, FA
+from pyvc.sym import fresh, fresh_fun, Int, Bool, Node, inb, FA, IntV
 from pyvc.values import *   # noqa
 from pyvc.seqs import VIntSet
+from pyvc.loops import LoopSpec
 from .base import Contract, Call
 
 
@@ -82,6 +83,15 @@ class _PathFn(Contract):
 class PathLength(_PathFn):
     key = 'paths::path_length'
 
+    def __init__(self, bound_n=None):
+        pass
+
+    def apply(self, interp, g, argv, kwv):
+        p = argv[0]
+        if p.kind != 'path':
+            raise Undecided('path_length of %s' % p.kind)
+        return VInt(p.w.PL(p.c))
+
     def finish(self, ctx, c, outcome):
         if outcome[0] == 'raise':
             return self.forbid(ctx, 'C14.path_length.no_exception.%s' % outcome[1], tags=('C14',), note=outcome[2])
@@ -94,6 +104,15 @@ class PathLength(_PathFn):
 class PathDuration(_PathFn):
     key = 'paths::path_duration'
 
+    def __init__(self, bound_n=None):
+        pass
+
+    def apply(self, interp, g, argv, kwv):
+        p = argv[0]
+        if p.kind != 'path':
+            raise Undecided('path_duration of %s' % p.kind)
+        return VInt(p.w.T1(p.c) - p.w.T0(p.c))
+
     def finish(self, ctx, c, outcome):
         if outcome[0] == 'raise':
             return self.forbid(ctx, 'C14.path_duration.no_exception.%s' % outcome[1], tags=('C14',), note=outcome[2])
@@ -101,3 +120,151 @@ class PathDuration(_PathFn):
         if r.kind != 'int':
             return self.forbid(ctx, 'C14.path_duration.returns_an_int', tags=('C14',))
         ctx.oblige('C14.path_duration.is_last_minus_first_time', r.z == c.ht(c.n - 1) - c.ht(0), tags=('C14',))
+
+
+class AnnotatePaths(Contract):
+    r"""annotate_paths(paths) (C14): paths a non-empty list of non-empty paths between one node pair.
+    A path is abstracted to what the function reads: hop count PL, first / last time T0, T1, and identity under == (content id).
+    ensures (as sets of paths, i ranging over positions of the input, c over contents)
+      'shortest'         : paths[i] listed  <=>  PL(i) = min_j PL(j)
+      'fastest'          : paths[i] listed  <=>  T1(i) - T0(i) = min_j (T1(j) - T0(j))
+      'foremost'         : paths[i] listed  <=>  T1(i) = min_j T1(j)
+      'fastest_shortest' : content c listed <=>  c is the content of a shortest path whose duration is minimal among the shortest
+      'shortest_fastest' : content c listed <=>  c is the content of a fastest path whose hop count is minimal among the fastest
+      every listed path is an element of the input (the lists are given by positions / contents of input paths)
+    loop invariant at k, for each criterion X with running minimum m and list B:
+      m is None <=> k = 0;  k >= 1 => m = X(w) for some w < k and m <= X(j) for all j < k;  B lists exactly the j < k with X(j) = m, once
+    trusted: copy.copy(p) == p; min() over dict values; dict comprehension keyed by tuple(p) (equal contents collapse)."""
+    props = ('C14',)
+    key = 'paths::annotate_paths'
+
+    def __init__(self, bound_n=None):
+        pass
+
+    def uses(self, eng):
+        return [PathLength(), PathDuration()]
+
+    def reads(self):
+        return [PathLength.key, PathDuration.key]
+
+    def setup(self, ctx, variant):
+        from pyvc.pathsmodel import PathWorld, VPath
+        w = PathWorld()
+        ctx.pathworld = w
+        ctx.assume(w.n >= 1)
+        i = z3.Int('i?ap')
+        ctx.assume(FA([i], z3.Implies(inb(i, w.n), w.PL(w.cid(i)) >= 1), [w.cid(i)]))
+        paths = VSeq(w.n, lambda k: VPath(w, w.cid(k), pos=k), {'elem_kind': 'path'})
+        c = Call(w=w, argv=[paths], kwv={}, qi=fresh('qi', Int), qc=fresh('qc', Int))
+        ctx.ap = c
+        return c
+
+    # the three criteria
+    def crit(self, w):
+        return {'shortest': lambda c: w.PL(c), 'fastest': lambda c: w.T1(c) - w.T0(c), 'foremost': lambda c: w.T1(c)}
+
+    @staticmethod
+    def as_bag(w, v):
+        from pyvc.pathsmodel import VOptBag, bag_of
+        if v.kind == 'none':
+            return z3.BoolVal(True), z3.K(Int, IntV(0))
+        if v.kind == 'list':
+            b = bag_of(w, v.items)
+            return b.isnone, b.cnt
+        if v.kind == 'optbag':
+            return v.isnone, v.cnt
+        raise Undecided('result slot of kind %s' % v.kind)
+
+    @staticmethod
+    def as_opt(v):
+        if v.kind == 'none':
+            return z3.BoolVal(True), IntV(0)
+        if v.kind == 'int':
+            return z3.BoolVal(False), v.z
+        if v.kind == 'optint':
+            return v.isnone, v.val
+        raise Undecided('running minimum of kind %s' % v.kind)
+
+    def loop_specs(self):
+        def inv(L):
+            c = L.ctx.ap
+            w = c.w
+            k = L.k
+            env = L.env
+            ann = [v for v in env.values() if getattr(v, 'kind', None) == 'dict' and len(getattr(v, 'pairs', [])) == 5]
+            if not ann:
+                raise Undecided('the result dict of annotate_paths was not found among the locals')
+            slots = {kk.s: vv for kk, vv in ann[0].pairs}
+            # running minima: the three optional-int locals, matched to their criterion by the name of the slot they guard is not
+            # possible by position; they are identified by the order of first assignment in the source: min_to_reach, shortest, fastest
+            opt_names = [n for n in L.opt_order if n in env]
+            if len(opt_names) != 3:
+                raise Undecided('expected three running minima, found %r' % (opt_names,))
+            mins = {'foremost': env[opt_names[0]], 'shortest': env[opt_names[1]], 'fastest': env[opt_names[2]]}
+            out = [('0 <= k', k >= 0)]
+            j = z3.Int('j?ap')
+            for name, X in self.crit(w).items():
+                mn, mv = self.as_opt(mins[name])
+                bn, cnt = self.as_bag(w, slots[name])
+                out.append(('%s.none_iff_nothing_seen' % name, z3.And(mn == (k == 0), bn == (k == 0))))
+                if L.assuming:
+                    wit = fresh('argmin_' + name, Int)
+                    out.append(('%s.minimum_is_attained' % name, z3.Implies(k >= 1, z3.And(inb(wit, k), X(w.cid(wit)) == mv))))
+                else:
+                    out.append(('%s.minimum_is_attained' % name, z3.Implies(k >= 1, z3.Exists([j], z3.And(inb(j, k), X(w.cid(j)) == mv)))))
+                out.append(('%s.minimum_is_a_lower_bound' % name, FA([j], z3.Implies(z3.And(k >= 1, inb(j, k)), mv <= X(w.cid(j))), [w.cid(j)])))
+                out.append(('%s.lists_exactly_the_minimal_ones' % name,
+                            FA([j], z3.Implies(k >= 1, cnt[j] == z3.If(z3.And(inb(j, k), X(w.cid(j)) == mv), 1, 0)), [cnt[j]])))
+            for name in ('shortest_fastest', 'fastest_shortest'):
+                bn, cnt = self.as_bag(w, slots[name])
+                out.append(('%s.still_none' % name, bn))
+            return out
+
+        def pre_hook(L):
+            return []
+        return {'seq/1': LoopSpec(inv, modifies={}, tags=('C14',))}
+
+    def body(self, interp, call):
+        # order in which the optional running minima are first assigned in the source (min_to_reach, shortest, fastest)
+        import ast as _ast
+        fi = interp.engine.fn(self.key)
+        order = []
+        for st in fi.fdef.body:
+            if isinstance(st, _ast.Assign) and isinstance(st.value, _ast.Constant) and st.value.value is None:
+                for t in st.targets:
+                    if isinstance(t, _ast.Name):
+                        order.append(t.id)
+        interp.opt_order = order
+        return Contract.body(self, interp, call)
+
+    def finish(self, ctx, c, outcome):
+        T = ('C14',)
+        if outcome[0] == 'raise':
+            return self.forbid(ctx, 'C14.annotate.no_exception.%s' % outcome[1], tags=T, note=outcome[2])
+        r = outcome[1]
+        if r.kind != 'dict':
+            return self.forbid(ctx, 'C14.annotate.returns_a_dict', tags=T)
+        w = c.w
+        slots = {kk.s: vv for kk, vv in r.pairs if kk.kind == 'str'}
+        i, cc = c.qi, c.qc
+        j = z3.Int('j?fin')
+        minimal = {}
+        for name, X in self.crit(w).items():
+            if name not in slots:
+                return self.forbid(ctx, 'C14.annotate.has_key_%s' % name, tags=T)
+            bn, cnt = self.as_bag(w, slots[name])
+            ismin = lambda p, X=X: z3.And(inb(p, w.n), z3.ForAll([j], z3.Implies(inb(j, w.n), X(w.cid(p)) <= X(w.cid(j)))))
+            minimal[name] = ismin
+            ctx.oblige('C14.annotate.%s.is_a_list' % name, z3.Not(bn), tags=T)
+            ctx.oblige('C14.annotate.%s.only_optimal_input_paths' % name, z3.Implies(cnt[i] >= 1, ismin(i)), tags=T)
+            ctx.oblige('C14.annotate.%s.every_optimal_input_path' % name, z3.Implies(ismin(i), cnt[i] >= 1), tags=T)
+        second = {'fastest_shortest': ('shortest', self.crit(w)['fastest']), 'shortest_fastest': ('fastest', self.crit(w)['shortest'])}
+        for name, (first, X2) in second.items():
+            v = slots.get(name)
+            if v is None or v.kind != 'keyset':
+                return self.forbid(ctx, 'C14.annotate.%s.is_a_list_of_paths' % name, tags=T, note='kind %s' % (v.kind if v is not None else None))
+            p, p2 = z3.Int('p?fin'), z3.Int('p2?fin')
+            expected = z3.Exists([p], z3.And(minimal[first](p), w.cid(p) == cc,
+                                             z3.ForAll([p2], z3.Implies(minimal[first](p2), X2(cc) <= X2(w.cid(p2))))))
+            ctx.oblige('C14.annotate.%s.only_the_best_of_%s' % (name, first), z3.Implies(v.member(cc), expected), tags=T)
+            ctx.oblige('C14.annotate.%s.every_best_of_%s' % (name, first), z3.Implies(expected, v.member(cc)), tags=T)
